@@ -153,3 +153,14 @@ package keeper
 //@ writers LockStoreKey: Keeper.DeleteLock, Keeper.SetLock
 //@ writers StakeStoreKey: Keeper.DeleteStake, Keeper.SetStake
 //@ writers VaultStoreKey: Keeper.SetVault
+
+// ---- read-only list getters (iterator + decode loops): results not modelled, no state written -------------------------
+// (so that a caller which uses one of them stays analysable: the list is an arbitrary well-typed value)
+//@ func (k Keeper) GetLocksByAddress
+//@ trusted
+//@ func (k Keeper) GetLocks
+//@ trusted
+//@ func (k Keeper) GetStakes
+//@ trusted
+//@ func (k Keeper) GetVaults
+//@ trusted
